@@ -309,15 +309,16 @@ func (it *skippingIterator) prev() (_ bool, unsafeFrom int) {
 		stop = 0
 	}
 
-	L := len(it.c.buffer.outInfo)
+	haveOutput := it.c.buffer.haveOutput
 	for it.idx > stop {
 		it.idx--
 		var info *GlyphInfo
-		if it.idx < L {
+		if haveOutput {
 			info = &it.c.buffer.outInfo[it.idx]
 		} else {
-			// we are in "position mode" : outInfo is not used anymore
-			// in the C implementation, outInfo and info now are sharing the same storage
+			// in-place mode (reverse lookups, positioning) : in the C implementation, outInfo and
+			// info are then sharing the same storage; here outInfo may still hold the stale
+			// content of the previous in/out lookup and must not be read
 			info = &it.c.buffer.Info[it.idx]
 		}
 
